@@ -31,7 +31,7 @@ pub fn run_check(prop: &str, _args: &[String]) -> i32 {
 
 pub fn find_image(name: &str) -> Option<ImageSet> {
     for g in [images::G9, images::G10, images::G12, images::G12B, images::G12R0, images::G12R1, images::G12R3, images::G12V2, images::G16] {
-        for k in ["libfmt", "empty", "data", "data-last-table", "zero", "zero-prealloc", "compressed", "compressed-boundary", "compressed-straddle", "compressed-ragged", "backing", "backing-short", "backing-long", "chain2", "shortl1"] {
+        for k in ["libfmt", "empty", "data", "data-ragged", "data-last-table", "zero", "zero-prealloc", "compressed", "compressed-boundary", "compressed-straddle", "compressed-ragged", "backing", "backing-short", "backing-long", "chain2", "shortl1"] {
             if !(name.starts_with(g.name) || name.starts_with("libfmt")) {
                 continue;
             }
@@ -310,14 +310,14 @@ fn seq_family(prop: &str) -> i32 {
             SeqPlan { geo: images::G10, images: vec!["data"], cfgs: vec!["small", "ample"], depth: 3, secs: 10 },
             SeqPlan { geo: images::G10, images: vec!["libfmt"], cfgs: vec!["ample"], depth: 3, secs: 5 },
             SeqPlan { geo: images::G12, images: vec!["libfmt"], cfgs: vec!["small"], depth: 2, secs: 5 },
-            SeqPlan { geo: images::G12B, images: vec!["compressed", "compressed-straddle", "compressed-ragged", "backing", "zero", "zero-prealloc"], cfgs: vec!["small"], depth: 2, secs: 8 },
+            SeqPlan { geo: images::G12B, images: vec!["compressed", "compressed-straddle", "compressed-ragged", "data-ragged", "backing", "zero", "zero-prealloc"], cfgs: vec!["small"], depth: 2, secs: 8 },
         ]
     } else {
         vec![
             SeqPlan { geo: images::G9, images: vec!["libfmt", "data", "empty"], cfgs: vec!["small", "ample"], depth: 6, secs: 240 },
             SeqPlan { geo: images::G10, images: vec!["libfmt", "data", "empty"], cfgs: vec!["small", "ample"], depth: 6, secs: 300 },
             SeqPlan { geo: images::G12, images: vec!["libfmt", "data"], cfgs: vec!["small", "default"], depth: 4, secs: 120 },
-            SeqPlan { geo: images::G12B, images: vec!["libfmt", "compressed", "compressed-straddle", "compressed-boundary", "compressed-ragged", "backing", "zero"], cfgs: vec!["small"], depth: 3, secs: 120 },
+            SeqPlan { geo: images::G12B, images: vec!["libfmt", "compressed", "compressed-straddle", "compressed-boundary", "compressed-ragged", "data-ragged", "backing", "zero"], cfgs: vec!["small"], depth: 3, secs: 120 },
             SeqPlan { geo: images::G10, images: vec!["zero", "zero-prealloc", "compressed", "compressed-straddle", "backing", "backing-short"], cfgs: vec!["small"], depth: 4, secs: 200 },
             SeqPlan { geo: images::G16, images: vec!["libfmt"], cfgs: vec!["default"], depth: 3, secs: 60 },
             SeqPlan { geo: images::G12R0, images: vec!["libfmt", "data"], cfgs: vec!["small"], depth: 3, secs: 60 },
@@ -1977,6 +1977,8 @@ pub fn growth_check() -> i32 {
         (crate::extra::rb63_edge_image(), rb63_alpha, if thorough { 4 } else { 3 }, if thorough { 300 } else { 10 }, false),
         (crate::extra::rt_edge_image(), rt_alpha, if thorough { 4 } else { 3 }, if thorough { 600 } else { 15 }, false),
         (crate::extra::short_l1_image(), l1_alpha.clone(), if thorough { 4 } else { 3 }, if thorough { 600 } else { 15 }, false),
+        // refcount-table relocation where the virtual size equals the old table's coverage
+        (crate::extra::rt_edge_tight_image(), vec![w(4060 * cs, 3 * cs, 1), w(4070 * cs, cs, 2), w(4080 * cs, 6 * cs, 3), Op::Flush, Op::Reopen], if thorough { 4 } else { 3 }, if thorough { 300 } else { 15 }, false),
         // relocation when the lowest free run is shorter than the new table
         (crate::extra::short_l1_rb_edge_image(), vec![w(64 * tb, cs, 2), w(130 * tb, cs, 4), w(57 * cs, cs, 1), Op::Discard { off: 10 * cs, len: cs }, Op::Flush, Op::Sync, Op::Reopen], 3, if thorough { 300 } else { 10 }, false),
         // relocation of a two-cluster L1 table: the released clusters are reused at once by the same write
@@ -2018,6 +2020,8 @@ pub fn growth_check() -> i32 {
             ("content", Oracles { c01: true, c02: true, c03: true, c16: true, ..Default::default() }),
             ("crash", Oracles { c01: true, c04: true, c05: true, ..Default::default() }),
         ] {
+            // writes of 4..8 clusters make crash windows of 10^5 images of 2 MiB: content oracles only
+            let alpha: Vec<Op> = alpha.iter().filter(|o| oname != "crash" || !matches!(o, Op::Write { len, .. } if *len > 3 * 512 && *len <= 8 * 512)).cloned().collect();
             let mut sc = SeqScenario::new(img.clone(), g.cfg_small(), g.cfg_alt(), "small", alpha.clone(), oracles);
             if alpha.iter().any(|o| matches!(o, Op::Write { len, .. } if *len > 8 * 512)) {
                 // crash windows of a 70-cluster write hold far more than 2^14 images of 2 MiB each:
